@@ -121,26 +121,24 @@ Proof.
 Qed.
 
 Theorem pg_comment_on_table_closed name text :
-  name <> [] -> ~ In 34%N name -> is_quoted text [39%N] = false ->
+  name <> [] -> is_quoted text [39%N] = false ->
   scan_closed opts_postgres delimiter (render (pg_comment_on_table name text)) = true.
 Proof.
-  intros Hn Hq Ht. apply skel_closed. unfold pg_comment_on_table, T_COMMENT_ON_TABLE.
+  intros Hn Ht. apply skel_closed. unfold pg_comment_on_table, T_COMMENT_ON_TABLE.
   eapply (skel_ttkk opts_postgres 67 _ _ _ _ 39 ([39%N] ++ double_sq text)); try (vm_compute; reflexivity); try lia.
-  - exact (ident_closed_notin 34 name eq_refl Hn Hq).
+  - exact (ident_closed 34 name eq_refl Hn).
   - exact (pg_quote_closed text Ht).
   - unfold pg_quote. rewrite Ht. rewrite <- app_assoc. reflexivity.
   - simpl. lia.
 Qed.
 
 Theorem mysql_alter_comment_closed np name text :
-  name <> [] -> ~ In 96%N name -> ~ In 92%N name -> is_quoted text [34%N; 39%N] = false ->
+  name <> [] -> ~ In 92%N name -> is_quoted text [34%N; 39%N] = false ->
   scan_closed opts_mysql delimiter (render (mysql_alter_comment np name text)) = true.
 Proof.
-  intros Hn Hq Hb Ht. apply skel_closed. unfold mysql_alter_comment, T_ALTER_TABLE.
+  intros Hn Hb Ht. apply skel_closed. unfold mysql_alter_comment, T_ALTER_TABLE.
   eapply (skel_ttkk opts_mysql 65 _ _ _ _ 34 ([34%N] ++ go_quote_loop np (length text) text)); try (vm_compute; reflexivity); try lia.
-  - rewrite ident_wrap by exact Hn. rewrite quoted_token_wrap. change (is_quote 96) with true. cbn [andb].
-    change (BackslashEscapes opts_mysql) with true.
-    rewrite (bw_plain 96 true) with (rest := [59%N; 10%N]); [reflexivity|discriminate|exact Hq|intros _; exact Hb].
+  - change (BackslashEscapes opts_mysql) with true. exact (ident_closed_esc 96 name eq_refl Hn Hb).
   - exact (mysql_quote_closed np text Ht).
   - unfold mysql_quote. rewrite Ht. unfold go_quote. rewrite <- app_assoc. reflexivity.
   - simpl. lia.
